@@ -40,7 +40,7 @@ def run_tlc(module, cfg=None, env=None, workers=4, heap='3g', timeout=1800,
     # StateDeque: TLC's in-memory state queue.  The default disk-backed queue serialises queued states with one byte per
     # character, so every character >= U+0080 in a state variable comes back corrupted (sign-extended low byte, e.g.
     # U+00E9 -> U+FFE9) once the queue spills; the specification's alphabets contain NBSP, NEL, U+3000, e-acute ...
-    cmd = ['java', '-Dtlc2.tool.queue.IStateQueue=StateDeque', '-XX:+UseParallelGC', '-XX:ParallelGCThreads=4', '-Xmn512m',
+    cmd = ['java', '-Djava.io.tmpdir=' + meta, '-Dtlc2.tool.queue.IStateQueue=StateDeque', '-XX:+UseParallelGC', '-XX:ParallelGCThreads=4', '-Xmn512m',
            f'-Xmx{heap}', '-Xss64m',
            '-cp', JAR, 'tlc2.TLC', '-workers', str(workers), '-metadir', meta,
            '-noGenerateSpecTE', '-deadlock']
@@ -101,7 +101,7 @@ _VLINE = re.compile(r'^"V\|(\d+)\|([A-Z]+)\|(.*)"$')
 def parse_verdicts(out, n):
     """Verdict lines are printed as one string each:  "V|<tid>|<CODE>|<detail>"."""
     v = [None] * n
-    for line in out.splitlines():
+    for line in out.split('\n'):
         m = _VLINE.match(line.strip())
         if m:
             tid = int(m.group(1))
@@ -218,7 +218,7 @@ def export_cases(module, cfg=None, workers=1, heap='4g', timeout=1800, env=None,
             f.write(res['out'])
         raise MachineryError(f'TLC failed exporting from {module}: see {keep}\n' + res['out'][-3000:])
     cases = []
-    for line in res['out'].splitlines():
+    for line in res['out'].split('\n'):
         m = _EXPORT.match(line.strip())
         if m:
             cases.append(json.loads(_unquote(m.group(1))))
